@@ -9,6 +9,8 @@ package redisemu
 //@ immutable dataStoreCommand.ds dataStore.waitingClients cmdContext.cs cmdContext.dsc cmdContext.cd cmdContext.multi cmdContext.args clientState.dss cmdDispatcher.dss
 // a table allocated during the current command and not (yet) reachable from the keyspace
 //@ ghostfield redisDict.scratch bool
+// C07: the current time of the most recent time.Now() (maintained by the engine's model of time.Now)
+//@ ghost now time
 //@ ghost held bool
 //@ ghost mutated bool
 // C02/C04: the integer parsed from the stored string / field by the counter commands
@@ -33,6 +35,8 @@ package redisemu
 //@ pred skWF(sk *storeKey) = (sk.payload != nil ==> flagHasOne(sk.flags, FLAG_KEY_TYPE_STRING|FLAG_KEY_TYPE_LIST|FLAG_KEY_TYPE_HASH_TABLE|FLAG_KEY_TYPE_SET)) && (flagHasOne(sk.flags, FLAG_KEY_TYPE_STRING) ==> istype(sk.payload, []byte) && unbox(sk.payload, []byte) != nil) && (flagHasOne(sk.flags, FLAG_KEY_TYPE_LIST) ==> istype(sk.payload, *storeList) && unbox(sk.payload, *storeList) != nil) && (flagHasOne(sk.flags, FLAG_KEY_TYPE_HASH_TABLE) ==> istype(sk.payload, *redisDict) && unbox(sk.payload, *redisDict) != nil) && (flagHasOne(sk.flags, FLAG_KEY_TYPE_SET) ==> istype(sk.payload, *redisDict) && unbox(sk.payload, *redisDict) != nil)
 //@ typeinv storeKey skWF
 
+// table size invariant of redisDict (power of two, 16..2^31); assumed here, to be proved with the dict representation (C04)
+//@ pred dictSized(rd *redisDict) = len(rd.buckets) >= 16 && len(rd.buckets) <= (1<<31) && len(rd.buckets)&(len(rd.buckets)-1) == 0
 //@ pred dscOK(dsc *dataStoreCommand) = dsc != nil && dsc.ds != nil && dsc.ds.data != nil && dsc.ds.waitingClients != nil && !dsc.ds.data.scratch && dsc.ds.data.keyspace && dsc.ds.data.owner == dsc.ds
 
 //@ func flagHasOne
@@ -112,6 +116,7 @@ package redisemu
 //@ pure
 //@ requires rd != nil
 //@ requires [C08,C16] locked: held
+//@ ensures rd.count == 0 ==> !exists
 
 //@ func redisDict.store
 //@ trusted
@@ -121,6 +126,7 @@ package redisemu
 //@ requires [C10,C06] newest: rd.keyspace ==> (istype(val, *storeKey) && unbox(val, *storeKey) != nil && unbox(val, *storeKey).id == rd.owner.dataObjectNumber)
 //@ modifies redisDict.buckets redisDict.count redisDict.removals redisDictItem alloc
 //@ ensures rd.count >= 1
+//@ ensures others: forall r *redisDict :: r != rd ==> r.count == old(r.count)
 //@ effect rd.dirty = true
 //@ effect if !rd.scratch : mutated = true
 
@@ -172,6 +178,7 @@ package redisemu
 //@ trusted recursive conversion of Go values to RESP values; allocation only (the two ensures restate its string and respValue cases)
 //@ pure
 //@ ensures str: istype(val, string) ==> istype(value.data, respBulkString)
+//@ ensures arr: istype(val, []any) ==> istype(value.data, respArray)
 //@ ensures same: istype(val, respValue) ==> value == unbox(val, respValue)
 
 //@ func redisGlob
@@ -184,6 +191,8 @@ package redisemu
 //@ trusted relies on the keyspace invariant: every value stored in ds.data is a non-nil *storeKey that satisfies skWF (established by newStoreKeyUnlocked/copy/move, the only writers)
 //@ requires ds != nil && ds.data != nil
 //@ requires [C08,C16] locked: held
+// C07: the raw lookup ignores expiry; only these expiry-aware (or expiry-indifferent) functions may use it
+//@ callers [C07] dataStoreCommand.getKeyObjectUnlocked dataStore.getLiveStoreKey dataStore.hasChangedUnlocked dataStoreCommand.setModified
 //@ modifies storeKey.lastAccess
 //@ ensures exists == (sk != nil)
 //@ ensures exists ==> skWF(sk)
@@ -206,9 +215,10 @@ package redisemu
 //@ safetyprop C13
 //@ requires dscOK(dsc)
 //@ requires [C08,C16] locked: held
-//@ modifies storeKey.lastAccess ghost.lookupAbsent
+//@ modifies storeKey.lastAccess ghost.lookupAbsent ghost.now
 //@ ensures exists == (sk != nil)
 //@ ensures exists ==> skWF(sk)
+//@ ensures [C07] live: exists ==> !(now > sk.expiresAt)
 //@ ensures [C10] absent.mono: old(lookupAbsent) ==> lookupAbsent
 
 //@ func dataStoreCommand.setDirty
@@ -241,12 +251,12 @@ package redisemu
 //@ func storeKey.getHashTable
 //@ include accessor
 //@ ensures (result != nil) == flagHasOne(sk.flags, FLAG_KEY_TYPE_HASH_TABLE)
-//@ ensures free stored: result != nil ==> !result.scratch && !result.keyspace
+//@ ensures free stored: result != nil ==> !result.scratch && !result.keyspace && dictSized(result)
 
 //@ func storeKey.getSet
 //@ include accessor
 //@ ensures (result != nil) == flagHasOne(sk.flags, FLAG_KEY_TYPE_SET)
-//@ ensures free stored: result != nil ==> !result.scratch && !result.keyspace
+//@ ensures free stored: result != nil ==> !result.scratch && !result.keyspace && dictSized(result)
 
 //@ pred dsOK(ds *dataStore) = ds != nil && ds.data != nil && !ds.data.scratch && ds.data.keyspace && ds.data.owner == ds
 
@@ -261,13 +271,33 @@ package redisemu
 //@ ensures [C06] wf: skWF(result)
 //@ loopinv held
 
+//@ func dataStore.getLiveStoreKey
+//@ prop C08 C16 C07
+//@ guards on
+//@ safetyprop C13
+//@ requires ds != nil && ds.data != nil
+//@ requires [C08,C16] locked: held
+//@ modifies storeKey.lastAccess ghost.lookupAbsent ghost.now
+//@ ensures exists == (sk != nil)
+//@ ensures exists ==> skWF(sk)
+//@ ensures [C07] live: exists ==> !(now > sk.expiresAt)
+//@ ensures [C10] absent.mono: old(lookupAbsent) ==> lookupAbsent
+
+//@ func dataStore.hasChangedUnlocked
+//@ prop C08 C16 C07 C10
+//@ guards on
+//@ safetyprop C13
+//@ requires ds != nil && ds.data != nil
+//@ requires [C08,C16] locked: held
+//@ modifies storeKey.lastAccess ghost.lookupAbsent ghost.now
+
 //@ func dataStore.copyStoreKeyUnlocked
 //@ prop C08 C16 C10
 //@ guards on
 //@ safetyprop C13
 //@ requires dsOK(ds) && dsOK(dds)
 //@ requires [C08,C16] locked: held
-//@ modifies heap ghost.mutated ghost.bumped ghost.removedKey ghost.lookupAbsent
+//@ modifies heap ghost.mutated ghost.bumped ghost.removedKey ghost.lookupAbsent ghost.now
 //@ ensures [C10] ver.mut: (mutated && !old(mutated)) ==> bumped || removedKey
 //@ ensures [C19] dirty.mut: (mutated && !old(mutated)) ==> dds.data.dirty
 
@@ -277,7 +307,7 @@ package redisemu
 //@ safetyprop C13
 //@ requires dsOK(ds) && dsOK(dds)
 //@ requires [C08,C16] locked: held
-//@ modifies heap ghost.mutated ghost.bumped ghost.removedKey ghost.lookupAbsent
+//@ modifies heap ghost.mutated ghost.bumped ghost.removedKey ghost.lookupAbsent ghost.now
 //@ ensures [C10] ver.mut: (mutated && !old(mutated)) ==> bumped
 //@ ensures [C19] dirty.mut: (mutated && !old(mutated)) ==> dds.data.dirty
 
@@ -289,5 +319,7 @@ package redisemu
 //@ requires [C08,C16] locked: held
 //@ modifies dataStore.dataObjectNumber storeKey redisDict redisDictItem alloc ghost.mutated ghost.bumped
 //@ ensures result != nil && result.flags == 0 && result.payload == nil && result.id == ds.dataObjectNumber
+//@ ensures otherdicts: forall r *redisDict :: r != ds.data ==> r.count == old(r.count)
+//@ use redisDict.store.others
 //@ ensures mut: mutated && bumped
 //@ ensures dirty: ds.data.dirty
